@@ -83,7 +83,7 @@ def run_impl(case):
 
 def impl_view(r):
     """the observables compared with the model"""
-    return {"trace": r["trace"], "outcomes": r["outcomes"], "residue": r["residue"]}
+    return {"trace": drop_refused(r)[1], "outcomes": r["outcomes"], "residue": r["residue"]}
 
 
 # ---- model --------------------------------------------------------------------------------------
@@ -92,12 +92,38 @@ def is_path_case(case):
     return case.get("ndirs", 1) > 1 or any(p.get("argv") is not None for p in case["procs"])
 
 
+def eff_path(p):
+    """the stacks the locker can lock: a stack it cannot write to (`ro`) is skipped by takeLocks after one refused mkdir"""
+    return [d for d in p.get("path", [0]) if d not in (p.get("ro") or [])]
+
+
+def drop_refused(r):
+    """Read-only stacks are tied to the model by reduction: the real run on a path with such stacks must be the model's
+    run on the path without them, plus one refused `mkdir` (EACCES) per skipped stack (an exclusive request: followed by the listing of that — missing —
+    lock directory, which it makes before it looks at the error).  Returns (executed, trace) without
+    those steps."""
+    drop, after = set(), {}
+    for k, t in enumerate(r["trace"]):
+        if t[1].startswith("mkdir") and t[2] == "EACCES":
+            drop.add(k)
+            after[t[0]] = "scan_all" + t[1][5:]      # an exclusive request lists the lockers before it looks at the errno
+        elif after.get(t[0]) == t[1] and t[2] == "[]":
+            drop.add(k)
+            after.pop(t[0])
+        elif t[1] != "-":
+            after.pop(t[0], None)
+    if not drop or len(r["trace"]) != len(r["executed"]):
+        return r["executed"], r["trace"]
+    keep = [k for k in range(len(r["trace"])) if k not in drop]
+    return [r["executed"][k] for k in keep], [r["trace"][k] for k in keep]
+
+
 def model_req(case, executed):
     if is_path_case(case):
         # kind "N" (no lock requested: lockType None, --nolocks, -h): a command with an empty path
         return {"m": "c09", "op": "runpath", "sched": executed, "ndirs": case.get("ndirs", 1),
                 "procs": [{"kind": (p["kind"] if p["kind"] != "N" else "S"), "lp": p.get("lp"), "tries": p.get("tries", 0),
-                           "path": (p.get("path", [0]) if p["kind"] != "N" else []),
+                           "path": (eff_path(p) if p["kind"] != "N" else []),
                            "explicit": p.get("explicit", True), "user": p.get("user")} for p in case["procs"]]}
     return {"m": "c09", "op": "run", "sched": executed,
             "procs": [{"kind": p["kind"], "lp": p.get("lp"), "tries": p.get("tries", 0), "user": p.get("user")}
@@ -347,9 +373,9 @@ def oracle(case, r):
     # takeLocks returned (the body ran): with a lock on every stack of the path, of the kind requested
     for i, sp in enumerate(case["procs"]):
         held = (r.get("held") or [None] * n)[i]
-        if sp.get("argv") is None and held is not None and sp["kind"] != "N" and sorted(held) != sorted(sp.get("path", [0])):
-            yield ("body_runs_locked", None, "takeLocks of process %d returned locks on stacks %r, its path is %r" % (
-                i, held, sp.get("path", [0])))
+        if sp.get("argv") is None and held is not None and sp["kind"] != "N" and sorted(held) != sorted(eff_path(sp)):
+            yield ("body_runs_locked", None, "takeLocks of process %d returned locks on stacks %r, its path is %r (read-only: %r)" % (
+                i, held, sp.get("path", [0]), sp.get("ro") or []))
     # real command lines: the lock a command holds in its body is the one its kind demands, on every stack of its path
     for i, sp in enumerate(case["procs"]):
         if sp.get("argv") is None:
@@ -540,6 +566,14 @@ def path_case(rng):
     if rng.random() < 0.15:
         c["base"] = "abs"
     add_signals(rng, c, 0.12)
+    if "signal" not in c and rng.random() < 0.2:      # (not together with signals: the reduction below does not commute with them)
+        # stacks nobody here may write to (a system-wide stack): takeLocks goes on without a lock there and must still
+        # lock the others.  Read-only for every locker alike, so that no lock directory ever exists there (a lock
+        # directory in a stack one cannot write to would make the creation of the lock file fail — outside the model)
+        ros = rng.sample(range(nd), rng.randint(1, nd - 1) if nd > 1 else 1)
+        for pr in procs:
+            if set(pr["path"]) & set(ros):
+                pr["ro"] = sorted(set(pr["path"]) & set(ros))
     return c
 
 
@@ -641,7 +675,7 @@ def trace_events(trace):
 
 def evaluate(ctx, cases):
     impl = parallel_map(run_case, cases, workers=WORKERS)
-    reqs = [model_req(c, r["executed"]) for c, r in zip(cases, impl)]
+    reqs = [model_req(c, drop_refused(r)[0]) for c, r in zip(cases, impl)]
     answers = ctx.lean.ask_many(reqs)
     # the lock bracket of every real command line, as the model has it
     creqs = [(k, i, cmdline_req(sp, c.get("base", "default"))) for k, c in enumerate(cases)
@@ -722,6 +756,12 @@ def evaluate(ctx, cases):
             ctx.hist("lockDirectoryBase=absolute")
         if any(not p.get("explicit", True) for p in c["procs"]):
             ctx.hist("release_at_exit_only")
+        if any(p.get("ro") for p in c["procs"]):
+            ctx.hist("with_read_only_stack")
+            if any(t[2] == "EACCES" for t in r["trace"]):
+                ctx.hist("mkdir_refused_read_only_stack")
+            if any(p.get("ro") and eff_path(p) for p in c["procs"]):
+                ctx.hist("read_only_and_writable_stack_in_one_path")
         for o in r["outcomes"]:
             ctx.hist("outcome=" + o)
         for o in r.get("mid", []):
@@ -820,7 +860,32 @@ def exploration_support(ctx, nmax):
     ctx.hist("explored_support_states", states)
 
 
+def interleave(classes, chunk=40):
+    """round-robin over the case classes, `chunk` cases of each at a time: when the time budget cuts a run short (loaded
+    machine, enlarged budget) every class has had its share, none is starved"""
+    out, pos = [], [0] * len(classes)
+    while any(p < len(c) for p, c in zip(pos, classes)):
+        for k, c in enumerate(classes):
+            out += c[pos[k]:pos[k] + chunk]
+            pos[k] += chunk
+    return out
+
+
+def generated(ctx, sizes, three_limit):
+    """the case classes of one portion of the run: (list of classes, each a list of cases)"""
+    r3, r4, r2, nphase, npath, nsig, ncmd = sizes
+    three = explore_cases(ctx, three_proc_configs(), "cover3", limit=three_limit)
+    return [three,
+            [random_case(ctx.rng, 3) for _ in range(r3)], [random_case(ctx.rng, 4) for _ in range(r4)],
+            [random_case(ctx.rng, 2) for _ in range(r2)], [phase_case(ctx.rng) for _ in range(nphase)],
+            [path_case(ctx.rng) for _ in range(npath)], [signal_case(ctx.rng) for _ in range(nsig)],
+            cmd_cases(ctx.rng, ncmd)]
+
+
 def run(ctx):
+    # 1. the ordinary quick portion, first and completely — also when the case budget is enlarged (thorough tier, or the
+    #    quick tier after a mirrored function changed: `ctx.escalated`), so that every case class and every distribution
+    #    floor below is reached before the time limit can bite
     cases = corpus_cases()
     ctx.hist("corpus", len(cases))
     evaluate(ctx, cases)
@@ -829,35 +894,28 @@ def run(ctx):
     # all distinct interleavings of two processes (transition cover of the model's state graph)
     two = explore_cases(ctx, two_proc_configs(), "cover2")
     ctx.hist("cover2_schedules", len(two))
-    for k in range(0, len(two), 600):
-        if ctx.out_of_time():
-            ctx.note("time budget reached inside the two-process cover")
-            break
-        evaluate(ctx, two[k:k + 600])
-    # three processes: every distinct schedule in the thorough tier, a sample of the cover in the quick one
-    three = explore_cases(ctx, three_proc_configs(), "cover3", limit=ctx.n(60, None))
-    ctx.hist("cover3_schedules", len(three))
-    for k in range(0, len(three), 600):
-        if ctx.out_of_time():
-            ctx.note("time budget reached inside the three-process cover")
-            break
-        evaluate(ctx, three[k:k + 600])
-    nrand3, nrand4, nphase = ctx.n(500, 4000), ctx.n(150, 6000), ctx.n(300, 3000)
-    batch = [random_case(ctx.rng, 3) for _ in range(nrand3)] + [random_case(ctx.rng, 4) for _ in range(nrand4)] + \
-            [random_case(ctx.rng, 2) for _ in range(ctx.n(100, 1000))] + [phase_case(ctx.rng) for _ in range(nphase)] + \
-            [path_case(ctx.rng) for _ in range(ctx.n(400, 6000))] + [signal_case(ctx.rng) for _ in range(ctx.n(80, 1500))] + \
-            cmd_cases(ctx.rng, ctx.n(120, 1500))
-    for k in range(0, len(batch), 600):
-        if ctx.out_of_time():
-            ctx.note("time budget reached inside the random schedules")
-            break
-        evaluate(ctx, batch[k:k + 600])
+    quick = interleave([two] + generated(ctx, (500, 150, 100, 300, 400, 80, 120), 60))
+    for k in range(0, len(quick), 600):
+        evaluate(ctx, quick[k:k + 600])          # no time check: this portion always runs to its end
+    # 2. the enlarged budget: every distinct three-process schedule, many more generated cases — class by class in
+    #    rotation, as far as the time limit allows
+    if ctx.n(0, 1):
+        more = interleave(generated(ctx, (4000, 6000, 1000, 3000, 6000, 1500, 1500), None), chunk=75)
+        ctx.hist("enlarged_portion_cases", len(more))
+        for k in range(0, len(more), 600):
+            if ctx.out_of_time():
+                ctx.note("time budget reached inside the enlarged portion after %d of %d cases (classes in rotation)" % (k, len(more)))
+                break
+            evaluate(ctx, more[k:k + 600])
+    ctx.hist("cover3_schedules", ctx.histogram.get("src=cover3", 0))
     exploration_support(ctx, 4 if ctx.tier == "thorough" else 3)
     # report the most telling failures first: outside every known class, then the shortest schedules
     ctx.failures.sort(key=lambda f: (f["finding_class"] is not None, len(f["input"]["sched"])))
     if ctx.evaluations < 200 or ctx.histogram.get("overlapping", 0) < 0.3 * ctx.evaluations:
         raise common.InfraError("degenerate distribution: %d cases, %d with overlapping lockers" % (
             ctx.evaluations, ctx.histogram.get("overlapping", 0)))
+    if not ctx.histogram.get("mkdir_refused_read_only_stack") or not ctx.histogram.get("read_only_and_writable_stack_in_one_path"):
+        raise common.InfraError("no case of this run had a stack the locker cannot write to")
     if not ctx.histogram.get("signal_delivered_in_body"):
         raise common.InfraError("no signal was delivered to a command body in this run")
     for ev in ("request_withdrawn", "retry_after_withdrawal", "create_found_directory_removed", "retry_after_directory_removed",
@@ -878,7 +936,7 @@ def replay(ctx, rp):
         case["phases"] = c["phases"]
     r = common.in_child(run_case, case)
     r = r[1] if r[0] == "ok" else {"executed": c["sched"], "trace": [], "outcomes": [repr(r)], "residue": [], "violations": [], "error": repr(r)}
-    a = ctx.lean.ask(model_req(case, r["executed"]))
+    a = ctx.lean.ask(model_req(case, drop_refused(r)[0]))
     iv, mv = impl_view(r), model_view(a)
     fails = [{"clause": cl, "class": k, "detail": d} for cl, k, d in oracle(case, r)]
     return {"input": c, "impl_output": iv, "model_output": mv, "agree": iv == mv, "violations": r["violations"], "fails": fails}
